@@ -108,7 +108,9 @@ C01_State(gc, cs) ==
 
 (* protocol-level walk: the sequence of found answers and the terminal answer *)
 C01_Walk(gc, from, seq, term) ==
-  from = Base(gc.acc) => (seq = gc.acc /\ term = "nf")
+  from = Base(gc.acc) =>
+     IF gc.exists THEN seq = gc.acc /\ term = "nf"
+     ELSE seq = <<>> /\ term \in {"nf", "nosuchclient"}     \* a client the server has never seen
 
 (***************************************************************************)
 (* C02 - AddVersion is an atomic compare-and-append                        *)
